@@ -32,6 +32,10 @@ func drivers(quick bool) []conc.Driver {
 		{Chunk: 2, Concurrent: true, Cycles: []int{3}, Faults: true},
 		{Chunk: 2, Concurrent: false, Cycles: []int{3}, Faults: true, After: 16}, // another, larger sorter lived before
 		{Chunk: 2, Concurrent: false, Cycles: []int{5}, Faults: true, Hit: true}, // the library's own element type, negative and large diagonals
+		{Chunk: 40, Concurrent: false, Cycles: []int{41}, Faults: true},          // runs of tens and of hundreds of records: a fault at every one of their file operations
+	}
+	if !quick {
+		scs = append(scs, mdrv.Scenario{Chunk: 301, Concurrent: false, Cycles: []int{302}, Faults: true}) // some 2 500 fault placements of a thousand steps each
 	}
 	if !quick {
 		scs = append(scs,
@@ -55,6 +59,15 @@ func drivers(quick bool) []conc.Driver {
 	} {
 		s := s
 		ds = append(ds, conc.Driver{Name: s.Name() + "-faults1", Cfg: cfg, Mk: func() vrt.Run { return s.Mk() }, Fallback: []int{0, 1, 2, 3, 4}})
+	}
+	{
+		// chunk sizes in the thousands (a buffer that is not allocated at its full size at once): one value more
+		// than a chunk, ONE schedule, no fault - every call succeeds, so every value must come back
+		for _, chunk := range []int{1000, 4097, 5000} {
+			s := mdrv.Scenario{Chunk: chunk, Concurrent: false, Cycles: []int{chunk + 1, chunk + chunk/50}}
+			cfg0 := vrt.Config{PreemptBound: -1, Budget: budget, Canonical: true, Horizon: 2000000}
+			ds = append(ds, conc.Driver{Name: s.Name() + "-canonical", Cfg: cfg0, Mk: func() vrt.Run { return s.Mk() }})
+		}
 	}
 	for _, s := range scs {
 		s := s
